@@ -73,7 +73,7 @@ class C12(Prop):
     # K2: the slice of the (stage-2) engine model's state / records this property reads
     k2_mask = {('node', '*'), ('server', '*'), ('rec', '*'), ('ind', 'interrupted'), ('ind', 'sst'), ('ind', 'server')}
     k2_frames = 40
-    k2_invs2 = {'sched', 'next'}         # the stage-2 T2 invariants (Inv/AllRun2.invs2_b) this property answers for on real snapshots
+    k2_invs2 = {'sched', 'next', 'slot'}         # the stage-2 T2 invariants (Inv/AllRun2.invs2_b) this property answers for on real snapshots
     regions = {'quick': [('sched', 110), ('sched_block', 60), ('schedpre', 110), ('slotted', 80), ('slotted_pre', 50), ('renege_schedpre', 30), ('all', 60),
                          ('renege', 20), ('spf_sched', 40), ('schedpre_block', 100), ('schedpre_tandem', 80)]}
     rule = ('one case = one observed run with a Schedule or Slotted node, or one differential comparison of a Schedule/Slotted '
